@@ -9,7 +9,12 @@
    size, attributes with zero byte / duplicate / empty value, EC attributes, container, owner, expiration, parent
    header, checksum kind, size limit, short / long stream), streamed with random chunkings through the REAL
    putsvc pipeline (client-signed path; node-side slicing path with 1-6 children and a refusing storage) and
-   through Service.ValidateAndStoreObjectLocally (validation of the replication path). Every record is
+   through Service.ValidateAndStoreObjectLocally (validation of the replication path). Also: objects created
+   within V1 sessions, in SEQUENCES of 2-4 objects through the one service instance (live session-token cache)
+   that share a token - a legitimate object followed by objects reusing the token with a foreign signer /
+   another owner / a changed token; and EC part objects (made by the real pipeline, then spoiled in one
+   aspect) through both entry points. The reference verdict of every step is the STATELESS Accept, so a
+   verdict that depends on earlier requests is a violation. Every record is
    classified by TLC against Accept() and the property is evaluated on the observation (what the storage
    received: IDs, checksums, signatures, reassembled payload)."""
 import json
@@ -28,7 +33,9 @@ def run(ck):
     scen_path = os.path.join(ck.tmp, "scenarios.ndjson")
     models = None
     if ck.replay:
-        vkit.write_ndjson(scen_path, [json.load(open(ck.replay))["replay"]["scenario"]])
+        doc = json.load(open(ck.replay))["replay"]
+        # a step of a session sequence is replayed together with the steps before it (same service instance)
+        vkit.write_ndjson(scen_path, doc.get("sequence") or [doc["scenario"]])
     else:
         jobs = [("Validation", "Validation_thorough.cfg" if thorough else "Validation_quick.cfg", dict(timeout=1500, workers=4)),
                 ("ValidationSlicer", "ValidationSlicer_thorough_fixed.cfg" if thorough else "ValidationSlicer_fixed.cfg", dict(timeout=1500, workers=4)),
@@ -62,6 +69,12 @@ def run(ck):
     ck.setcov("distinct_flag_vectors", len({(r["in"]["path"], r["in"]["mut"]) for r in recs}))
     ck.sample(recs[len(recs) // 2])
     stored_valid = sum(1 for r in recs if r["out"]["res"] == "ok")
+    reuse = sum(1 for r in recs if r["in"].get("seq", 0) > 0 and r["in"]["step"] > 0 and r["in"]["mut"].startswith("sess"))
+    ecparts = sum(1 for r in recs if r["in"]["path"] in ("ecput", "ecrepl"))
+    ck.setcov("session_token_reuse_steps", reuse)
+    ck.setcov("ec_part_records", ecparts)
+    if not ck.replay and (reuse < 30 or ecparts < 50):
+        raise vkit.Infra("vacuous run: %d token-reuse steps, %d EC part records" % (reuse, ecparts))
     if not ck.replay and (stored_valid < 200 or len(by) < 40):
         raise vkit.Infra("vacuous run: %d accepted objects, %d path/mutation/outcome classes" % (stored_valid, len(by)))
     reported = {}
@@ -71,6 +84,8 @@ def run(ck):
             continue
         reported[c] = reported.get(c, 0) + 1
         rp = {"scenario": rec["in"], "observed": rec["out"], "class": c}
+        if rec["in"].get("seq", 0) > 0:
+            rp["sequence"] = [r["in"] for r in recs if r["in"].get("seq") == rec["in"]["seq"] and r["in"]["step"] <= rec["in"]["step"]]
         if c == "kfViol":
             ck.sample({"known_finding_record": rec}, limit=4)
             ck.report(KF, "real PUT pipeline went on after a failed child object (known class): %s" % json.dumps(rec), rp)
@@ -83,5 +98,5 @@ def run(ck):
         "cryptography (ECDSA, SHA-256), protobuf encoding and the SDK slicer are trusted",
         "the serving node is the only container node; its ObjectStorage is an in-memory recorder whose content is inspected (ID, payload length, checksum, signature, reassembly)",
         "Server.Replicate's request envelope (signature over the ID, container membership) belongs to the RPC family; here the object validation it delegates to (ValidateAndStoreObjectLocally) is driven directly",
-        "session tokens are not used (objects are owned by the signing key); EC part objects / nested parent headers beyond one invalid parent are not generated",
+        "V1 session tokens only (no V2 / NNS); token verb / container / lifetime are the ACL service's business and are not varied; nested parent headers beyond one level are not generated",
     ]
